@@ -244,10 +244,13 @@ package internal
 //@   ensures valid ==> t == expTime(hget(r.Data.Header, "Expires"))                          # name: value
 
 //@ func heuristicFreshness
-//@   property C01
+//@   property C01 C09
 //@   pure
 //@   reveal tenthPlus1s
+//@   let lmS = hget(h, "Last-Modified")
+//@   let dlm = tsub(date, httpTime(lmS))
 //@   ensures result >= 0 && result <= heurUpper(h, date)      # name: at-most-tenth
+//@   ensures validHTTPTime(lmS) && ns(httpTime(lmS)) < ns(date) ==> result >= dlm/10 - dlm/1125899906842624 - 1 - 1000000000      # name: at-least-about-a-tenth   props: C09
 
 // freshCalcAt: the clock reading at which the last freshness calculation started. realAge(f, e):
 // the freshness value f carries at least the RFC 9111 4.2.3 age entry e had at that moment (a
